@@ -15,6 +15,7 @@ import (
 	"encoding/json"
 	"errors"
 	"fmt"
+	"net/http"
 	"sort"
 	"strings"
 	"sync"
@@ -322,8 +323,12 @@ func EchoView(ctx heimdall.Context) string {
 		names := strings.Split(want, ",")
 		sort.Strings(names)
 
+		// both ways a mechanism can read a header: by name, and from the map of all headers
+		all := req.Headers()
+
 		for _, n := range names {
 			v.Headers[n] = req.Header(n)
+			v.Headers["all:"+n] = all[http.CanonicalHeaderKey(n)]
 		}
 	}
 
